@@ -14,6 +14,9 @@ Init == l = 1 /\ traces = 0
 Ev == TraceLog[l]
 Checks(e) ==
   CASE e.ev = "restart_failed" -> << <<FALSE, "restarting on the post-crash directory failed">> >>
+    [] e.ev = "after_recovery" -> << <<e.err = "", "the recovered broker cannot serve what it holds after further acknowledged produces">>,
+                                     <<Len(e.missing) = 0, "a record is missing when the recovered broker is read again after further acknowledged produces">>,
+                                     <<e.contiguous, "offsets are not strictly increasing after recovery and further produces">> >>
     [] e.ev = "recovered" -> << <<Len(e.missing) = 0, "an acknowledged produce is missing after recovery">>,
                                 <<Len(e.lost_commits) = 0, "an acknowledged offset commit is missing after recovery">>,
                                 <<e.contiguous, "recovered offsets are not strictly increasing">>,
